@@ -101,7 +101,7 @@ fn c12_big_shapes(thorough: bool) -> Vec<Vec<usize>> {
         vec![8, 8, 8, 8], vec![2, 9, 8, 2], vec![1, 9, 1, 8], vec![16, 17, 16], vec![2, 2, 2, 2, 2, 2, 2, 2, 2]];
     for s in more { if !v.contains(&s) { v.push(s); } }
     if thorough { for a in 7..=17usize { for b in 7..=17usize { let s = vec![a, b]; if !v.contains(&s) { v.push(s); } } }
-        for s in [vec![70, 71], vec![71, 70], vec![9, 10, 11, 5], vec![4, 33, 32], vec![12, 12, 12, 3], vec![5000, 1], vec![1, 5000], vec![3, 1400]] { if !v.contains(&s) { v.push(s); } } }
+        for s in [vec![70, 71], vec![71, 70], vec![9, 10, 11, 5], vec![4, 33, 32], vec![12, 12, 12, 3], vec![5000, 1], vec![1, 5000], vec![3, 1400], vec![100, 101], vec![20, 21, 22], vec![129, 64], vec![10000]] { if !v.contains(&s) { v.push(s); } } }
     v
 }
 
